@@ -48,7 +48,7 @@ ASSUMPTIONS = [
     "the frustum shares centre and radius with the sphere at one end (the statement's case)",
     "heights > 0, sphere radii > 0; far-end radius >= 0",
 ]
-REQUIRED = ["sphere_checked", "cap_checked", "frustum_checked", "ss_intersections", "ss_unions",
+REQUIRED = ["composites_built_between_build_and_measure", "sphere_checked", "cap_checked", "frustum_checked", "ss_intersections", "ss_unions",
             "sf_intersections", "sf_unions", "ss_tangent", "ss_nested", "ss_concentric",
             "ss_smaller_first", "sf_far_end_order", "sf_taper_narrowing", "sf_taper_widening",
             "sf_frustum_inside_sphere", "sf_h_below_r", "sf_h_above_r", "sf_axis_aligned",
@@ -110,7 +110,22 @@ def _vol(ctx, case, obj):
             obj.get_volume(n_samples=200)
         except TypeError:
             ctx.count("rejected_call_before_get_volume")
-    return obj.get_volume()
+    if ctx.evaluations % 2 == 1:
+        # other composites are built (and one of them measured) between building this one and
+        # measuring it: every object answers for its own solids
+        from swcgeom.utils import VolFrustumCone, VolSphere
+
+        a, b = VolSphere((0.5, -1.0, 2.0), 1.75), VolSphere((1.5, -1.0, 2.0), 0.6)
+        f = VolFrustumCone((0.5, -1.0, 2.0), 1.75, (0.5, 2.0, 2.0), 0.4)
+        decoys = [a.intersect(b), a.union(b), a.intersect(f), a.union(f), f.union(a)]
+        decoys[ctx.evaluations // 2 % len(decoys)].get_volume()
+        ctx.count("composites_built_between_build_and_measure")
+    v = obj.get_volume()
+    again = obj.get_volume()  # (a composite remembers its volume)
+    if not (again == v or (again != again and v != v)):
+        ctx.violation("volume-changes-on-second-call", f"get_volume() gave {v!r}, then {again!r} on "
+                                                       f"the same object", case)
+    return v
 
 
 def execute(ctx, case):
